@@ -9,7 +9,7 @@
 
    The full-strength statement of the property is FALSE of the current code.  It is kept visible below
    ([fit_pure_full], [unfitted_raises_full_biv], [def_before_use_full]) next to its refutation with a concrete
-   witness (each witness is replayed on the real library by the check: findings F5, F6, F7, F8, F9b, F22-F28)
+   witness (each witness is replayed on the real library by the check: findings F5, F6, F7, F8, F9b, F22-F26, F29, F30)
    and next to the strongest partial statement that does hold. *)
 From Coq Require Import ZArith QArith List String Bool Lia.
 From Cop Require Import Model.Lifecycle Model.Vine Model.LifecycleTab Spec.LifecycleProofs.
@@ -149,7 +149,7 @@ Section T1.
       new_wrapper a k = Ok u ->
       get_instance_u (PInstU (fst (run_fitsw u hs g))) [] = Ok (OU u).
   Proof. exact (get_instance_replays_ctor_wrapper o_sfit o_tg_opt o_tolist o_resample o_select o_choice). Qed.
-  (* classes WITHOUT @store_args: the clone is the default-constructed object: a seed given to the prototype is lost (F27) *)
+  (* classes WITHOUT @store_args: the clone is the default-constructed object: a seed given to the prototype is lost (F29) *)
   Theorem C19_get_instance_no_store_args : forall f a k s hs g,
       has_store_args f = false -> new_scipy f a k = Ok s ->
       get_instance_u (PInstS (fst (run_fits s hs g))) [] = Ok (OS (fresh f)).
@@ -289,7 +289,7 @@ Proof. exact get_instance_fresh. Qed.
 Theorem C19_get_instance_kwargs_override : forall s k kw,
     get_instance_u (PInstS s) (k :: kw) = new_u (KFam (s_fam s)) [] (k :: kw).
 Proof. exact get_instance_kwargs_override. Qed.
-(* "configured like the prototype" is REFUTED for the six classes without @store_args (F27) *)
+(* "configured like the prototype" is REFUTED for the six classes without @store_args (F29) *)
 Theorem C19_get_instance_drops_seed :
   exists s s', new_scipy FGaussian [] [("random_state", natj 42)] = Ok s /\
     get_instance_u (PInstS s) [] = Ok (OS s') /\ s_rs s = Some (42%Z, []) /\ s_rs s' = None.
@@ -393,7 +393,7 @@ Theorem C19_check_fit_first :
    ("Univariate", "probability_density"); ("Univariate", "sample"); ("Univariate", "to_dict")].
 Proof. vm_compute. reflexivity. Qed.
 (* ... and those that do not: the log-densities delegate to a guarded method; Bivariate.sample / to_dict are the
-   refuted cases above (F23, F25); VineCopula.sample raises AttributeError when unfitted (F28); VineCopula.to_dict of
+   refuted cases above (F23, F25); VineCopula.sample raises AttributeError when unfitted (F30); VineCopula.to_dict of
    an unfitted vine returns {type, vine_type, fitted: False} by design; Tree/Edge.to_dict are helpers *)
 Theorem C19_no_check_fit_first :
   no_check_fit_first =
